@@ -8,7 +8,9 @@ from sim.core import Outcome, PRNG, HarnessError, digest_of
 
 KEYS = ['include_dirs', 'library_dirs', 'libraries', 'define_macros', 'extra_compile_args', 'extra_link_args']
 WS = [' ', '  ', '\t', '\n', ' \t ', '\n\n', '\r\n', ' \r', '\f', '\v ']
-WORDS = ['foo', 'bar', 'usr/include/x', '/opt/lib64', 'glib-2.0', 'z', 'A_B', 'with.dot', 'x86_64-linux-gnu', 'm']
+WORDS = ['foo', 'bar', 'usr/include/x', '/opt/lib64', 'glib-2.0', 'z', 'A_B', 'with.dot', 'x86_64-linux-gnu', 'm',
+         # names that begin with the letters of the prefixes themselves
+         'lzma', 'ldap', 'Include', 'Lib/x', 'l', 'I', '-dash', 'DD']
 OTHER_C = ['-pthread', '-Wall', '-std=c99', '-fPIC', '--sysroot=/x', '-mfpu=neon', '-O2', '-isystem', '/sys/inc', '-W']
 OTHER_L = ['-pthread', '-Wl,-rpath,/x', '-framework', 'Cocoa', '-rdynamic', '--as-needed', '-static', '-Wl,--no-undefined']
 
@@ -167,7 +169,7 @@ class C35(core.Check):
                 elif r < 0.35:
                     toks.append('-I' + rng.choice(['/', '']) + rng.choice(WORDS))
                 elif r < 0.7:
-                    name = rng.choice(['NDEBUG', 'VERSION', 'X', '_GNU_SOURCE', 'A1'])
+                    name = rng.choice(['NDEBUG', 'VERSION', 'X', '_GNU_SOURCE', 'A1', 'DEBUG', 'D', 'DD_D'])
                     k = rng.random()
                     if k < 0.4:
                         toks.append('-D' + name)
